@@ -1005,9 +1005,29 @@ func intrinsic(name string) externalFn {
 		return func(fr *frame, args []value) value { return randFill(args[0].([]value)) }
 	case "svRandMode":
 		return func(fr *frame, args []value) value { ex.ghost["randmode"] = int(asInt64(args[0])); return nil }
+	case "svLocksHeld":
+		return func(fr *frame, args []value) value { return len(ex.heldSnapshot()) }
+	case "svWatch":
+		return func(fr *frame, args []value) value {
+			w, _ := ex.ghost["watch"].(map[*value]bool)
+			if w == nil {
+				w = map[*value]bool{}
+				ex.ghost["watch"] = w
+			}
+			w[ptrArg(args[0])] = true
+			return nil
+		}
+	case "svLogStart":
+		return func(fr *frame, args []value) value { ex.ghost["logid"] = int(asInt64(args[0])); return nil }
+	case "svLogStop":
+		return func(fr *frame, args []value) value { ex.ghost["logid"] = -1; return nil }
+	case "svRaceReport":
+		return func(fr *frame, args []value) value {
+			return ex.raceReport(int(asInt64(args[0])), int(asInt64(args[1])))
+		}
 	case "svHeld":
 		return func(fr *frame, args []value) value {
-			ls := ex.locks[args[0].(*value)]
+			ls := ex.locks[ptrArg(args[0])]
 			if ls == nil {
 				return 0
 			}
@@ -1106,4 +1126,116 @@ func randFill(b []value) value {
 		}
 	}
 	return tuple{len(b), iface{}}
+}
+
+// ---------------------------------------------------------------- ghost locks and access log (C13)
+
+// lockOp maintains the ghost state of a sync.Mutex / sync.RWMutex in a
+// sequential execution: acquiring a lock that the (single) thread already
+// holds in a conflicting mode is a self-deadlock, releasing one that is not
+// held is a run-time error in Go; both are recorded.
+func (e *explorer) lockOp(m *value, op string) {
+	ls := e.locks[m]
+	if ls == nil {
+		ls = &lockState{}
+		e.locks[m] = ls
+	}
+	fail := func(msg string) {
+		if _, ok := e.ghost["lockerr"]; !ok {
+			e.ghost["lockerr"] = msg
+		}
+	}
+	switch op {
+	case "Lock":
+		if ls.writer || ls.readers > 0 {
+			fail("Lock of a mutex the goroutine already holds (self-deadlock)")
+		}
+		ls.writer = true
+	case "Unlock":
+		if !ls.writer {
+			fail("Unlock of a mutex that is not locked")
+		}
+		ls.writer = false
+	case "RLock":
+		if ls.writer {
+			fail("RLock of a mutex the goroutine holds for writing (self-deadlock)")
+		}
+		ls.readers++
+	case "RUnlock":
+		if ls.readers <= 0 {
+			fail("RUnlock of a mutex that is not read-locked")
+		} else {
+			ls.readers--
+		}
+	}
+}
+
+type accessRec struct {
+	obj   *value
+	name  string // Type.field
+	write bool
+	locks map[*value]int // lock -> 1 read mode, 2 write mode
+}
+
+func (e *explorer) heldSnapshot() map[*value]int {
+	r := map[*value]int{}
+	for m, ls := range e.locks {
+		if ls.writer {
+			r[m] = 2
+		} else if ls.readers > 0 {
+			r[m] = 1
+		}
+	}
+	return r
+}
+
+// logAccess records a field access to a watched object.
+func (e *explorer) logAccess(obj *value, name string, write bool) {
+	id, ok := e.ghost["logid"].(int)
+	if !ok || id < 0 {
+		return
+	}
+	logs, _ := e.ghost["logs"].(map[int][]accessRec)
+	if logs == nil {
+		logs = map[int][]accessRec{}
+		e.ghost["logs"] = logs
+	}
+	logs[id] = append(logs[id], accessRec{obj: obj, name: name, write: write, locks: e.heldSnapshot()})
+}
+
+// raceReport looks for two accesses, one from each log, to the same field of
+// the same object, at least one a write, whose lock sets do not exclude each
+// other (a lock excludes if both hold it and at least one holds it for writing).
+func (e *explorer) raceReport(a, b int) string {
+	logs, _ := e.ghost["logs"].(map[int][]accessRec)
+	for _, x := range logs[a] {
+		for _, y := range logs[b] {
+			if x.obj != y.obj || x.name != y.name || !(x.write || y.write) {
+				continue
+			}
+			excl := false
+			for m, mx := range x.locks {
+				if my, ok := y.locks[m]; ok && (mx == 2 || my == 2) {
+					excl = true
+					break
+				}
+			}
+			if !excl {
+				return x.name
+			}
+		}
+	}
+	return ""
+}
+
+func ptrArg(v value) *value {
+	switch p := v.(type) {
+	case *value:
+		return p
+	case iface:
+		if q, ok := p.v.(*value); ok {
+			return q
+		}
+	}
+	panic(abortPath{fmt.Sprintf("engine: pointer argument expected, got %T", v)})
 }
